@@ -539,7 +539,7 @@ func c08Receiver(c *Ctx) int {
 			}
 		}
 	}
-	for _, cl := range []string{"x", "-1", "0", "5", "99999999", "1e3"} { // header lies
+	for _, cl := range []string{"x", "-1", "0", "5", "99999999", "1e3", "4611686018427387904", "68719476736", "9223372036854775807", "-9223372036854775808"} { // header lies
 		add("receiver", "PUT", "/upload/chh/V300/1.cmfv", seg1, map[string]string{"Content-Length": cl}, "content-length="+cl)
 	}
 	// orderings: media before init, init twice, audio init on a video track, media of another track
